@@ -403,10 +403,10 @@ static int run_scenario(int topo, int nout, int N, int var, int maxsz)
     if (o_json) {
         fprintf(o_json, "%s{\"name\":\"%s\",\"engine\":\"vranks\",\"topology\":\"%s\",\"outputs\":%d,\"N\":%d,\"variant\":%d,\"max_set_size\":%d,"
                 "\"states\":%ld,\"transitions\":%ld,\"executions\":%ld,\"cases\":%ld,\"nontrivial\":%ld,\"distinct_outcomes\":%zu,"
-                "\"failing_cases\":%ld,\"failing_attributed_to_known_finding\":%ld,\"lost_pairs\":%ld,\"lost_pairs_attributed\":%ld,"
+                "\"failing_cases\":%ld,\"failing_attributed_to_known_finding\":%ld,\"failing_unattributable\":%ld,\"lost_pairs\":%ld,\"lost_pairs_attributed\":%ld,"
                 "\"relay_messages\":%ld,\"max_tree_depth\":%d,\"exhaustive\":%s,\"violations\":%ld,\"wall_s\":%.2f,\"samples\":[",
                 o_json_first ? "" : ",\n", scen, topo_name(topo), nout, N, var, maxsz, states, transitions, cases, cases, nontrivial, outcomes.n,
-                failing, attributed, lost_pairs, lost_attr, relay_msgs, maxdepth, exhaustive ? "true" : "false", viol, wall);
+                failing, attributed, failing - attributed, lost_pairs, lost_attr, relay_msgs, maxdepth, exhaustive ? "true" : "false", viol, wall);
         for (int i = 0; i < nsamples; i++) { fprintf(o_json, "%s\"", i ? "," : ""); for (char *s = samples[i]; *s; s++) { if (*s == '"' || *s == '\\') fputc('\\', o_json); fputc(*s, o_json); } fputc('"', o_json); }
         fprintf(o_json, "]}"); o_json_first = 0; fflush(o_json);
     }
